@@ -59,6 +59,14 @@ def step (e : ES) (line : String) : ES × String :=
           let e' := { e with st := s', pcs := setPc e.pcs tid (dst e.fixed l) }
           (e', showState e')
         | none => (e, "stuck")
+  | ["enter", tid] =>
+    -- the thread enters its call and reaches the first yield site: no shared effect, the model does not move
+    match tid.toNat? with
+    | none => (e, "bad-op")
+    | some tid =>
+      match e.pcs.lookup tid with
+      | none => (e, s!"no-such-thread {tid}")
+      | some _ => (e, showState e)
   | "step" :: tid :: action :: rest =>
     match tid.toNat? with
     | none => (e, "bad-op")
